@@ -186,6 +186,10 @@ from .common_node import selects_own_entries
 
 def run(ctx: Ctx):
     model = ctx.model
+    from .common_node import names_resolve
+    names_resolve(ctx, "C19-GN")
+    from .common_node import clock_agreement
+    clock_agreement(ctx, "C19-G10", {("node.peer", "PeerConnection", "_created"): ["lifetime"]})
     found = discover(model)
     ctx.note(f"container attributes discovered: {len(found)}")
 
@@ -197,6 +201,18 @@ def run(ctx: Ctx):
         ctx.use(ci)
         if key not in TABLE:
             ctx.inst(cons, nontrivial=False)
+            grow_u, shrink_u = sites(model, key[1])
+            if grow_u and not shrink_u:
+                # no classification needed to decide this one: entries are added at run time and
+                # nothing in the package ever removes one
+                f_, n_ = grow_u[0]
+                ctx.fail(f"{cons}:never-released", f_.loc(n_),
+                         f"{cons} ({kind}) gets entries in {sorted({f.qualname for f, _ in grow_u})} "
+                         f"(`{ast.unparse(n_)[:70]}`) and no function of the package removes one: "
+                         f"the container grows with every use for the lifetime of the node",
+                         expected="a release paired with every addition (or a bounded window)",
+                         observed="growth sites only")
+                continue
             ctx.error(f"unclassified container {cons} ({kind}) at {ci.loc(node)}: per-use growth "
                       f"cannot be ruled out - classify it in dv/rules/c19.py", rule="C19-G0")
             continue
